@@ -3,6 +3,9 @@ SPECIFICATION MCSpecRec
 CONSTANTS
   Atoms <- AtomsSmall
   Subs <- SubsSmall
+  DupCommits <- DupSmall
+  DupCreators <- DupCreatorsSmall
+  DupSpenders <- DupSpendersSmall
   Trunk = 5
   Maturity = 3
   MaxPool = 1
